@@ -792,10 +792,11 @@ func poolHygiene(c *core.Ctx) {
 				f := astx.CalleeFunc(info, call)
 				return f != nil && strings.HasPrefix(f.Name(), "get") && helpers["compressionPool."+f.Name()]
 			})
-			puts := s.CountCalls(func(call *ast.CallExpr) bool {
+			isPut := func(call *ast.CallExpr) bool {
 				f := astx.CalleeFunc(info, call)
 				return f != nil && strings.HasPrefix(f.Name(), "put") && helpers["compressionPool."+f.Name()]
-			})
+			}
+			puts := s.CountCalls(isPut) + s.DeferredCalls(isPut)
 			getFailed := false
 			// the path returned right after a failed get (err != nil of the get)
 			for _, st := range s.Steps {
